@@ -231,3 +231,50 @@ MUTANTS = [
     ("persist_ignores_fixable_count", "sqlfluff/core/linter/linted_file.py", "        if self.num_violations(fixable=True, filter_warning=False) > 0:", "        if self.num_violations(fixable=True, filter_warning=False) >= 0:"),
     ("normalise_keeps_cr", "sqlfluff/core/linter/linter.py", 'return regex.sub(r"\\r\\n|\\r", "\\n", string)', 'return regex.sub(r"\\r\\n", "\\n", string)'),
 ]
+
+
+def fix_string_reference_splice(tier, seed):
+    """real LintedFiles (from linting small SQL / Jinja strings with fix=True): fix_string() == the reference splice of the
+    stored source patches into the source (each patch range replaced by its text, everything else copied), and the
+    success flag == (text changed)."""
+    from sqlfluff.core import FluffConfig, Linter
+    sqls = ["select a,b from tbl\n", "SELECT  a  FROM  tbl where x=1\n", "select\n    a,\n  b\nfrom t\n", "select 1",
+            "SELECT a from {{ tbl }} where  b = {{ x }}\n", "{% if c %}select  1{% else %}select  2{% endif %}\n",
+            "select a,\n{% for i in [1,2] %}  col{{ i }} ,\n{% endfor %} c from t\n", "select * from t -- comment  \n\n\n",
+            "selECT a as  b , c  d from t;\n", "  select 1  \n", "select a from t where a in (1,2 , 3)\n", ""]
+    ev, nontriv, failed, samples = 0, 0, [], []
+    for templater in ("raw", "jinja"):
+        for sql in sqls:
+            cfg = FluffConfig(overrides={"dialect": "ansi", "templater": templater},
+                              configs={"templater": {"jinja": {"context": {"tbl": "my_tbl", "x": "1", "c": True}}}})
+            try:
+                lf = Linter(config=cfg).lint_string(sql, fix=True)
+            except Exception:
+                continue
+            if lf.tree is None:
+                continue
+            ev += 1
+            src = lf.templated_file.source_str
+            patches = lf.source_patches if lf.source_patches is not None else []
+            want, idx, ok_ref = "", 0, True
+            for p in sorted(patches, key=lambda p: (p.source_slice.start, p.source_slice.stop)):
+                if p.source_slice.start < idx:
+                    continue          # dropped whole (starts inside covered text)
+                want += src[idx:p.source_slice.start] + p.fixed_raw
+                idx = p.source_slice.stop
+            want += src[idx:]
+            got, success = lf.fix_string()
+            nontriv += 1 if patches else 0
+            if len(samples) < 3 and patches:
+                samples.append({"sql": sql, "templater": templater, "patches": len(patches), "fixed": got})
+            if got != want or success != (got != src):
+                failed.append({"name": "C11/fix_string/reference-splice", "id": "C11/fix_string/reference-splice", "kind": "bounded",
+                               "status": "failed", "function": "sqlfluff.core.linter.linted_file:LintedFile.fix_string",
+                               "detail": {"sql": sql, "templater": templater, "expected": want, "observed": got, "success": success},
+                               "reproduced": True})
+                break
+    return {"name": "fix_string-reference-splice", "bound": f"{len(sqls)} strings x 2 templaters", "rule": "non-trivial = at least one source patch",
+            "evaluations": ev, "distinct_nontrivial": nontriv, "samples": samples, "failed": failed[:1]}
+
+
+BOUNDED.append(fix_string_reference_splice)
